@@ -257,6 +257,9 @@ func (eq *externalBaseQueue) Purge() {
 			j.Close()
 		}
 	}
+
+	// the queue may just have become empty: WaitUntilFinished callers must hear of it
+	eq.w.notifyToPullNextJobs()
 }
 
 func (eq *externalBaseQueue) Close() error {
